@@ -2,6 +2,7 @@
 
 from copy import deepcopy
 
+import torch
 from torch.nn import ModuleList
 
 from gpytorch.likelihoods import Likelihood
@@ -22,15 +23,16 @@ class LikelihoodList(Likelihood):
         self.likelihoods = ModuleList(likelihoods)
 
     def expected_log_prob(self, *args, **kwargs):
-        if kwargs.get("noise") is not None:
+        if kwargs.get("noise") is not None and not torch.is_tensor(kwargs["noise"]):
             noise = kwargs.pop("noise")
-            # if noise kwarg is passed, assume it's an iterable of noise tensors
+            # a list of noise tensors is one per member (a single tensor is passed on to every member as it is)
             return [
                 likelihood.expected_log_prob(*args_, **{**kwargs, "noise": noise_})
                 for likelihood, args_, noise_ in length_safe_zip(self.likelihoods, _get_tuple_args_(*args), noise)
             ]
         else:
-            kwargs.pop("noise", None)
+            if kwargs.get("noise") is None:
+                kwargs.pop("noise", None)
             return [
                 likelihood.expected_log_prob(*args_, **kwargs)
                 for likelihood, args_ in length_safe_zip(self.likelihoods, _get_tuple_args_(*args))
@@ -108,15 +110,16 @@ class LikelihoodList(Likelihood):
         return fantasy_likelihood
 
     def pyro_sample_output(self, *args, **kwargs):
-        if kwargs.get("noise") is not None:
+        if kwargs.get("noise") is not None and not torch.is_tensor(kwargs["noise"]):
             noise = kwargs.pop("noise")
-            # if noise kwarg is passed, assume it's an iterable of noise tensors
+            # a list of noise tensors is one per member (a single tensor is passed on to every member as it is)
             return [
                 likelihood.pyro_sample_output(*args_, **{**kwargs, "noise": noise_})
                 for likelihood, args_, noise_ in length_safe_zip(self.likelihoods, _get_tuple_args_(*args), noise)
             ]
         else:
-            kwargs.pop("noise", None)
+            if kwargs.get("noise") is None:
+                kwargs.pop("noise", None)
             return [
                 likelihood.pyro_sample_output(*args_, **kwargs)
                 for likelihood, args_ in length_safe_zip(self.likelihoods, _get_tuple_args_(*args))
